@@ -306,3 +306,223 @@ def _show_res(r):
     if isinstance(r, tuple) and r and r[0] == 'host':
         return f'host exception {r[1]}'
     return show_arg(r)
+
+
+# ------------------------------------------------------------------------------------------------ data functions (data.py)
+class DataInterp(LibInterp):
+    def __init__(self, repo, mod, rule='E6l'):
+        super().__init__(repo, mod, rule)
+        self.oracles['value_json'] = self._json
+        self.oracles['validate_type'] = lambda args, node: args[2]
+        self.oracles['parse_expression'] = lambda args, node: Sym('expr', args[0])
+        self.oracles['_import_evaluate_expression'] = lambda args, node: ('extern', 'runtime', 'evaluate_expression')
+        self.oracles['evaluate_expression'] = self._evaluate
+        self.n_eval = 0
+
+    def _evaluate(self, args, node):
+        e = args[0]
+        self.n_eval += 1
+        if isinstance(e, Sym) and e.kind == 'expr' and len(args) > 2 and isinstance(args[2], ADict):
+            return args[2].d.get(e.args[0])
+        raise Unrecognised(self.rule, f'evaluate_expression({args[:1]!r}) in a data scenario', self.mod.rel)
+
+    @staticmethod
+    def canon(v):
+        if isinstance(v, AList):
+            return '[' + ','.join(DataInterp.canon(x) for x in v.l) + ']'
+        if isinstance(v, (list, tuple)):
+            return '[' + ','.join(DataInterp.canon(x) for x in v) + ']'
+        if isinstance(v, ADict):
+            return '{' + ','.join(f'{k!r}:{DataInterp.canon(x)}' for k, x in sorted(v.d.items())) + '}'
+        if v is None:
+            return 'null'
+        if isinstance(v, bool):
+            return 'true' if v else 'false'
+        if isinstance(v, (int, float)):
+            return repr(float(v))
+        if isinstance(v, str):
+            return '"' + v + '"'
+        if isinstance(v, Sym) and v.kind == 'val':
+            return f'<{v.args[0]}>'
+        raise Unrecognised('E6l', f'value_json of {v!r}')
+
+    def _json(self, args, node):
+        return self.canon(args[0])
+
+    def method_hook(self, base, m, args, e):
+        if isinstance(base, tuple) and base and base[0] == 'module' and base[1] in ('statistics', 'math'):
+            import statistics
+            import math
+            vals = self.iterate(args[0], e) if args and isinstance(args[0], (AList, list, tuple)) else list(args)
+            if not all(isinstance(x, (int, float)) and not isinstance(x, bool) for x in vals):
+                if any(x is None or isinstance(x, Sym) for x in vals):
+                    raise HostOrdering(e)
+                raise Unrecognised(self.rule, f'{base[1]}.{m} of non-numbers', self.mod.rel)
+            fn = getattr(statistics if base[1] == 'statistics' else math, m, None)
+            if fn is None:
+                raise Unrecognised(self.rule, f'{base[1]}.{m}', self.mod.rel)
+            try:
+                return fn(vals) if base[1] == 'statistics' else fn(*vals)
+            except Exception as exc:
+                raise RaiseSig(type(exc).__name__, (str(exc),), e)
+        return NotImplemented
+
+
+def ref_top(rows, count, fields):
+    order, buckets = [], {}
+    for r in rows:
+        key = '' if fields is None else DataInterp.canon([r.get(f) for f in fields])
+        if key not in buckets:
+            buckets[key] = []
+            order.append(key)
+        buckets[key].append(r)
+    out = []
+    for k in order:
+        out += buckets[k][:max(0, int(count))]
+    return out
+
+
+def ref_aggregate(rows, agg):
+    import statistics
+    cats = agg.get('categories')
+    order, buckets = [], {}
+    for r in rows:
+        cv = [r.get(c) for c in cats] if cats is not None else None
+        key = DataInterp.canon(cv) if cv is not None else ''
+        if key not in buckets:
+            buckets[key] = (dict(zip(cats, cv)) if cats is not None else {}, [])
+            order.append(key)
+        buckets[key][1].append(r)
+    out = []
+    for k in order:
+        row, members = buckets[k]
+        row = dict(row)
+        for m in agg['measures']:
+            name = m.get('name', m['field'])
+            vals = [r.get(m['field']) for r in members if r.get(m['field']) is not None]
+            if not vals:
+                row[name] = None
+            else:
+                f = m['function']
+                row[name] = {'count': len, 'max': max, 'min': min, 'sum': sum, 'stddev': statistics.pstdev, 'average': statistics.mean}[f](vals)
+        out.append(row)
+    return out
+
+
+def ref_join(left, right, lkey, rkey=None, drop_unmatched=False):
+    rkey = rkey or lkey
+    left_names, raw, names = [], [], {}
+    for r in left:
+        for f in r:
+            if f not in left_names:
+                left_names.append(f)
+    for r in right:
+        for f in r:
+            if f not in raw:
+                raw.append(f)
+    for f in raw:
+        if f not in left_names:
+            names[f] = f
+        else:
+            k = 2
+            while f'{f}{k}' in left_names or f'{f}{k}' in names.values() or f'{f}{k}' in raw:
+                k += 1
+            names[f] = f'{f}{k}'
+    buckets = {}
+    for r in right:
+        buckets.setdefault(DataInterp.canon(r.get(rkey)), []).append(r)
+    out = []
+    for l in left:
+        m = buckets.get(DataInterp.canon(l.get(lkey)))
+        if m:
+            for r in m:
+                row = dict(l)
+                for f, v in r.items():
+                    row[names[f]] = v
+                out.append(row)
+        elif not drop_unmatched:
+            out.append(dict(l))
+    return out
+
+
+def _close(a, b):
+    if isinstance(a, dict) and isinstance(b, dict):
+        return set(a) == set(b) and all(_close(a[k], b[k]) for k in a)
+    if isinstance(a, list) and isinstance(b, list):
+        return len(a) == len(b) and all(_close(x, y) for x, y in zip(a, b))
+    if isinstance(a, bool) or isinstance(b, bool) or a is None or b is None:
+        return a is b
+    if isinstance(a, (int, float)) and isinstance(b, (int, float)):
+        return abs(a - b) <= 1e-9 * max(1.0, abs(a), abs(b))
+    return a == b
+
+
+def data_tables():
+    T1 = [{'c': 'x', 'v': 1}, {'c': 'y', 'v': 2.5}, {'c': 'x', 'v': None}, {'c': 'x', 'v': 0}, {'c': 'y', 'v': -1}, {'c': 'x', 'v': 4}]
+    T2 = [{'c': True, 'd': 'p', 'v': 3}, {'c': 1, 'd': 'p', 'v': 5}, {'c': 1.0, 'd': 'q', 'v': 7}, {'c': None, 'd': 'p'}, {'c': False, 'd': 'p', 'v': 0}, {'c': 0, 'd': 'p', 'v': 2}]
+    T3 = [{'c': '1', 'v': 2}, {'c': 1, 'v': 3}, {'c': [1], 'v': 5}, {'c': '[1]', 'v': 7}, {'v': 11}]
+    return {'plain': T1, 'mixed key types (true / 1 / 1.0 / null / false / 0)': T2, 'keys that look alike ("1" / 1 / [1] / "[1]" / missing)': T3, 'empty': [], 'one row': [{'c': 'x', 'v': 2}]}
+
+
+def _abs(v):
+    if isinstance(v, dict):
+        return ADict({k: _abs(x) for k, x in v.items()})
+    if isinstance(v, list):
+        return AList([_abs(x) for x in v])
+    return v
+
+
+def run_data_functions(repo, rule='E6l'):
+    """-> (per-function run counts, problems [(function, kind, message)])"""
+    mod = repo.module('data')
+    it = DataInterp(repo, mod, rule)
+    problems, counts = [], {}
+
+    def one(fname, args, want, desc):
+        func = mod.funcs.get(fname)
+        if func is None:
+            raise Unrecognised(rule, f'data.{fname} not found', mod.rel)
+        counts[fname] = counts.get(fname, 0) + 1
+        a_args = [_abs(a) for a in args]
+        before = reify(a_args[0])
+        try:
+            got = it.run(func, a_args)
+        except HostOrdering as ho:
+            problems.append((fname, 'host', f'{desc}: script values (null / mixed types) reach a host ordering or reducer at {norm(ho.node)[:60] if ho.node is not None else "?"}'))
+            return
+        if got[0] == 'raise':
+            problems.append((fname, 'host', f'{desc} raises {got[1]}{got[2]!r}'))
+            return
+        res = reify(got[1])
+        if not _close(res, want):
+            problems.append((fname, 'result', f'{desc} gives {res!r}; the relational meaning gives {want!r}'))
+        elif reify(a_args[0]) != before:
+            problems.append((fname, 'input', f'{desc} modifies its input table'))
+    for tname, table in data_tables().items():
+        for count in (0, 1, 2, 2.0, 1.0, 10):
+            for fields in (None, ['c'], ['c', 'd']):
+                one('top_data', [table, count, fields], ref_top(table, count, fields), f'top_data(<{tname}>, {count!r}, {fields!r})')
+        for cats in (None, ['c'], ['c', 'd']):
+            for fn in ('count', 'sum', 'min', 'max', 'average', 'stddev'):
+                for named in (False, True):
+                    m = {'field': 'v', 'function': fn}
+                    if named:
+                        m['name'] = 'out'
+                    agg = {'measures': [m, {'field': 'w', 'function': 'count', 'name': 'nw'}]}
+                    if cats is not None:
+                        agg['categories'] = cats
+                    one('aggregate_data', [table, agg], ref_aggregate(table, agg), f'aggregate_data(<{tname}>, categories={cats!r}, {fn}(v){" as out" if named else ""})')
+    L1 = [{'a': 1, 'b': 5}, {'a': 1, 'b': 6}, {'a': 2, 'b': 7}, {'a': 3, 'b': 8}]
+    R1 = [{'a': 1, 'c': 10}, {'a': 2, 'c': 11}, {'a': 2, 'c': 12}]
+    L2 = [{'a': 1, 'b': 5}, {'a': 2, 'a2': 7, 'b': 0}, {'a': None}, {'b': 1}]
+    R2 = [{'a': 2, 'a3': 'x', 'b': 1}, {'a': 1, 'c': 10, 'a2': 'r'}, {'a': None, 'c': 0}]
+    L3 = [{'a': True, 'k': 'l0'}, {'a': 1, 'k': 'l1'}, {'a': 1.0, 'k': 'l2'}, {'a': '1', 'k': 'l3'}, {'a': [1], 'k': 'l4'}]
+    R3 = [{'a': 1, 'k': 'r-one'}, {'a': True, 'k': 'r-true'}, {'a': '[1]', 'k': 'r-text'}, {'a': [1.0], 'k': 'r-list'}]
+    for lname, left in (('L1', L1), ('L2: fields differ between rows, a2 only in a later row', L2), ('L3: mixed key types', L3), ('empty', [])):
+        for rname, right in (('R1', R1), ('R2: fields a2 / a3 collide with generated names', R2), ('R3: mixed key types', R3), ('empty', [])):
+            for flag in (False, True):
+                before = [dict(r) for r in left]
+                one('join_data', [left, right, 'a', None, flag], ref_join(left, right, 'a', None, flag), f'join_data(<{lname}>, <{rname}>, "a", isLeftJoin={flag})')
+            one('join_data', [left, right, 'a', 'a'], ref_join(left, right, 'a', 'a'), f'join_data(<{lname}>, <{rname}>, "a", "a")')
+            one('join_data', [left, right, 'b', 'c'], ref_join(left, right, 'b', 'c'), f'join_data(<{lname}>, <{rname}>, "b", "c")')
+    return counts, problems
